@@ -108,7 +108,9 @@ def gen(c):
     Q = mul(rng.randrange(1, n), G)
     small = next(lift_x(x, 0) for x in range(1, 50) if lift_x(x, 0))
     classes = {"other_valid_point": Q, "neg_y": (C1[0], p - C1[1]), "wrong_y": (C1[0], (C1[1] + 1) % p), "zero_zero": (0, 0), "x_is_p": (p, C1[1]), "y_is_p": (C1[0], p),
-               "x_plus_p": (small[0] + p, small[1]), "x_max": (2 ** 256 - 1, C1[1])}
+               "x_plus_p": (small[0] + p, small[1]), "x_max": (2 ** 256 - 1, C1[1]),
+               # coordinates equal to p are congruent to 0: (p, sqrt(b)) is the curve point (0, sqrt(b)) written with an out-of-range x
+               "x_is_p_congruent": (p, sqrt_p(b)), "x_is_p_congruent_neg": (p, p - sqrt_p(b)), "x_zero_valid": (0, sqrt_p(b))}
     for cname, pt in classes.items():
         fb = ct_der(pt, C3, C2)
         add({"op": "decrypt", "iface": "der", "d": i2b(d), "ct": fb}, decrypt_case(d, fb, "c1:%s" % cname, "der"))
@@ -139,7 +141,9 @@ def gen(c):
     for cname, pt in classes.items():
         if cname in ("other_valid_point", "neg_y"):
             continue
-        add({"op": "ecdh", "d": i2b(d), "peer": b"\x04" + i2b(pt[0] % 2 ** 256) + i2b(pt[1] % 2 ** 256)}, {"kind": "ecdh", "what": "ecdh:peer:%s" % cname, "peerok": True, "qx": list(i2b(pt[0] % 2 ** 256)), "qy": list(i2b(pt[1] % 2 ** 256)), "x2": [], "y2": [], **pt_w(pt[0], pt[1])})
+        Sv = mul(d, pt) if on_curve(pt) else None      # a valid finite peer point must be accepted and give [d]Q
+        add({"op": "ecdh", "d": i2b(d), "peer": b"\x04" + i2b(pt[0] % 2 ** 256) + i2b(pt[1] % 2 ** 256)}, {"kind": "ecdh", "what": "ecdh:peer:%s" % cname, "peerok": True, "qx": list(i2b(pt[0] % 2 ** 256)), "qy": list(i2b(pt[1] % 2 ** 256)),
+            "x2": list(i2b(Sv[0])) if Sv else [], "y2": list(i2b(Sv[1])) if Sv else [], **pt_w(pt[0], pt[1])})
     add({"op": "ecdh", "d": i2b(d), "peer": b"\x00"}, {"kind": "ecdh", "what": "ecdh:peer:infinity_octet", "peerok": False, "qx": [0] * 32, "qy": [0] * 32, "x2": [], "y2": [], **pt_w(0, 0)})
     add({"op": "ecdh", "d": i2b(d), "peer": b"\x05" + pub}, {"kind": "ecdh", "what": "ecdh:peer:bad_prefix", "peerok": False, "qx": list(pub[:32]), "qy": list(pub[32:]), "x2": [], "y2": [], **pt_w(P[0], P[1])})
     return lines, cases, d, P
